@@ -96,14 +96,6 @@ End Fam.
 
 (* ---------- instances ---------- *)
 Notation P := C02Bridge.P.
-Lemma k_ns_U : incl_check (ipath_noscheme U) (ipath U) = true. Proof. refl. Qed.
-Lemma k_eps_U : incl_check Eps (ipath U) = true. Proof. refl. Qed.
-Lemma k_dots_U : incl_check (Alt (ch DOT) (Cat (ch DOT) (ch DOT))) (isegment U) = true. Proof. refl. Qed.
-Lemma k_noqh_U : incl_check (isegment U) (Star (Cls not_qh)) = true. Proof. refl. Qed.
-Lemma k_ns_I : incl_check (ipath_noscheme I) (ipath I) = true. Proof. refl. Qed.
-Lemma k_eps_I : incl_check Eps (ipath I) = true. Proof. refl. Qed.
-Lemma k_dots_I : incl_check (Alt (ch DOT) (Cat (ch DOT) (ch DOT))) (isegment I) = true. Proof. refl. Qed.
-Lemma k_noqh_I : incl_check (isegment I) (Star (Cls not_qh)) = true. Proof. refl. Qed.
 
 Definition pstep_valid_U := pstep_valid U U valid_parts_wf_U vsp_U path_of_segs_U segs_of_path_U InstU.i14a InstU.i14b InstU.i14c k_ns_U k_eps_U k_dots_U pg3_U k_noqh_U.
 Definition pstep_valid_I := pstep_valid I P valid_parts_wf_I vsp_I path_of_segs_I segs_of_path_I InstI.i14a InstI.i14b InstI.i14c k_ns_I k_eps_I k_dots_I pg3_I k_noqh_I.
